@@ -173,6 +173,10 @@ def gen_sequence(rng, ty, nops, stats, malformed=False):
             compress = 1 if (malformed and rng.random() < 0.2) else 0
             if malformed and rng.random() < 0.1:
                 shape = []
+            elif malformed and rng.random() < 0.15:
+                shape = list(shape)
+                shape[rng.randrange(len(shape))] = 0            # zero extent
+                odd = True
             toks += ['C', '@' + name, str(len(shape))] + [str(d) for d in shape] + [str(compress)]
             descr.append('create')
             if odd or compress or not shape:
@@ -192,7 +196,13 @@ def gen_sequence(rng, ty, nops, stats, malformed=False):
             shape = gen_shape(rng, stats['views'])
             if p in spec.ds and rng.random() < 0.7:
                 shape = list(spec.ds[p][0])
-            v = gen_view(rng, ty, shape, stats['views'])
+            if malformed and rng.random() < 0.08:
+                shape = list(shape)
+                shape[rng.randrange(len(shape))] = 0            # a fresh array with no elements: Write panics
+                v = View(shape, [], None)
+                odd = True
+            else:
+                v = gen_view(rng, ty, shape, stats['views'])
             toks += ['W', '@' + name] + v.tokens()
             descr.append('write')
             if odd:
@@ -240,9 +250,11 @@ def gen_sequence(rng, ty, nops, stats, malformed=False):
                     for idx in indices(bshape):
                         e[lin(d, [o + i for o, i in zip(loc, idx)])] = v.elems[lin(bshape, idx)]
                     stats['writeslice-inbounds'] += 1
+                    expect.append('ok')
                 else:
                     stats['writeslice-outofbounds'] += 1
-                expect.append('ok')           # in bounds: nil; out of bounds: WriteSubset's error is dropped (noted, not flagged)
+                    expect.append(None)       # the property says nothing about the return value here (today: nil, the error of
+                                              # WriteSubset is dropped -- noted, not flagged); the contents must be unchanged (final dump)
             else:
                 bshape = gen_shape(rng)
                 v = gen_view(rng, ty, bshape, stats['views'])
@@ -453,6 +465,17 @@ def main():
             c.violation('oracle_seq_%d.json' % i, dict(kind='io-oracle', elem_type=ty, case_line=lines[i], implementation_line=li, **bad), key=key)
         if i % 41 == 0:
             c.sample({'type': ty, 'ops': descr, 'result_head': li[:160]})
+    # ---- coqchk (thorough)
+    chk = None
+    if not quick and not c.proof_broken:
+        try:
+            with _Lock():
+                out = sh('timeout 2400 coqchk -silent -o -Q . OW OW.Properties.C08', cwd=COQ, timeout=2500)
+            chk = ' '.join(l.strip() for l in out.split('\n') if l.strip().startswith('* '))
+            if 'Axioms: <none>' not in chk:
+                c.assumptions.append('coqchk reports: ' + chk)
+        except BuildError as e:
+            c.proof_broken = ('coqchk rejected Properties/C08.vo', e.output[-2000:])
     # ---- concurrency (thorough; TESTING)
     conc = None
     if not quick:
@@ -473,7 +496,7 @@ def main():
                      'non-trivial = sequence contains a Load with selection or a WriteSlice / box point with start < min(stop,n)')
     c.finish(extra_cov={'exhaustive': True, 'exhaustive_scope': 'sliceSize/makeHyperslab box only; sequences are sampled',
                         'sequence_ops': n_ops, 'op_mix': {k: v for k, v in stats.items() if k != 'views'}, 'source_views': stats['views'],
-                        'lock_graph': lock_info, 'concurrency_testing': conc},
+                        'lock_graph': lock_info, 'concurrency_testing': conc, 'coqchk': chk},
              assumptions=['libhdf5 + gonum binding replaced by harness/fakehdf5 (README.md there states the modelled hyperslab / transfer semantics); '
                           'the claim is about the Go I/O layer against that documented semantics',
                           'Unroll() of any source view is its row-major element list (property C02); the harness cross-checks it per case',
@@ -524,8 +547,9 @@ def regenerate_lock_graph(c):
     except BuildError as e:
         c.proof_broken = ('callgraph translator does not build', e.output[-2000:])
         return {'error': 'build'}
-    p = subprocess.run([os.path.join(HARNESS, 'bin', 'callgraph'), '-dir', os.path.join(REPO, 'io')], stdout=subprocess.PIPE,
-                       stderr=subprocess.PIPE, text=True, timeout=120)
+    p = subprocess.run([os.path.join(HARNESS, 'bin', 'callgraph'), '-dir', os.path.join(REPO, 'io'), '-repo', REPO,
+                        '-hdf5dir', os.path.join(HARNESS, 'fakehdf5')], stdout=subprocess.PIPE,
+                       stderr=subprocess.PIPE, text=True, timeout=120, env=GOENV, cwd=HARNESS)
     if p.returncode != 0:
         c.violation('callgraph_failed.json', {'kind': 'translator failed on /repo/io', 'stderr': p.stderr[-2000:]}, no_input=True)
         return {'error': p.stderr[-300:]}
